@@ -171,19 +171,48 @@ def _zone(pktf):
   return "plain"
 
 
+_BLAME_ORDER = ["tp_dst", "tp_src", "nw_dst", "nw_src", "nw_tos", "nw_proto", "dl_type", "dl_vlan_pcp", "dl_vlan",
+                "dl_dst", "dl_src", "in_port"]
+
+
+def _widen_all(m, fields):
+  for f in fields:
+    m = _widen(m, f)
+  return m
+
+
+def _pox_says(m, frame, in_port):
+  try:
+    return pox_matches(pox_decode(M.pack_match(m)), frame, in_port)
+  except Exception:
+    return None
+
+
+def _blame_refused(m, frame, in_port):
+  """POX refuses a frame the reference accepts: the smallest set of fields (dependent fields first) whose
+  additional wildcarding makes POX accept it."""
+  done = []
+  for f in _BLAME_ORDER:
+    done.append(f)
+    if _pox_says(_widen_all(m, done), frame, in_port):
+      break
+  else:
+    return []
+  for f in list(done):
+    rest = [x for x in done if x != f]
+    if _pox_says(_widen_all(m, rest), frame, in_port):
+      done = rest
+  return [f for f in M.MATCH_FIELDS if f in done]
+
+
 def _mismatch_key(m, frame, in_port, pktf, ref, clause="match"):
   """Root-cause key of a disagreement on (match, frame): which field is to blame, in which kind of frame,
-  and whether the match carries a protocol value in a wildcarded prerequisite field."""
+  whether that field is an address with non-zero bits beyond its prefix, and whether the match carries a
+  protocol value in a wildcarded prerequisite field."""
   blame = None
   if ref:
-    # POX says no match: find the field whose additional wildcarding makes POX agree
-    for f in M.MATCH_FIELDS:
-      try:
-        if pox_matches(pox_decode(M.pack_match(_widen(m, f))), frame, in_port):
-          blame = f
-          break
-      except Exception:
-        continue
+    b = _blame_refused(m, frame, in_port)
+    blame = b[0] if b else None
   else:
     e = M.effective(m)
     for f in M.MATCH_FIELDS:
@@ -197,7 +226,11 @@ def _mismatch_key(m, frame, in_port, pktf, ref, clause="match"):
       elif pktf[f] != v:
         blame = f
         break
-  return {"clause": clause, "ref": bool(ref), "blame": blame, "zone": _zone(pktf),
+  host_bits = False
+  if blame in ("nw_src", "nw_dst"):
+    pl = M.prefix_len(m["wildcards"], M.OFPFW_NW_SRC_SHIFT if blame == "nw_src" else M.OFPFW_NW_DST_SHIFT)
+    host_bits = pl > 0 and (m[blame] & ~M._mask(pl) & 0xffffffff) != 0
+  return {"clause": clause, "ref": bool(ref), "blame": blame, "zone": _zone(pktf), "host_bits": host_bits,
           "prereq_garbage": _prereq_garbage(m) and blame in ("nw_tos", "nw_proto", "nw_src", "nw_dst", "tp_src", "tp_dst")}
 
 
